@@ -253,6 +253,17 @@ fn rood_hangs(ps: usize, edge_mask: u64, eps: &[(u64, u64)], nonces: &[u64]) -> 
 	true
 }
 
+/// the harness' own oracle disagrees with the implementation: a concrete failing input
+fn oracle_fail_line(v: Var, eb: u8, ps: usize, keys: &[u64; 4], seed: u64, nonces: &[u64], res: &str, o: bool, what: &str) -> String {
+	format!(
+		"#ORACLE-FAIL C05 verifier {}: variant={} edge_bits={} proofsize={} keys=[{}] header=seed{} nonces={} implementation={} oracle={}{}",
+		if res == "ok" { "accepts a non-cycle" } else { "rejects a cycle" },
+		v.name(), eb, ps, keys_str(keys), seed, nat_list(nonces), res,
+		if o { "accept" } else { "reject" },
+		if what.is_empty() { String::new() } else { format!(" case={}", what) }
+	)
+}
+
 struct Stats {
 	h: HashMap<(String, String), u64>,
 	hang_confirmed: u64,
@@ -370,13 +381,19 @@ impl Runner {
 			nonces: nonces.to_vec(),
 		};
 		let ctx = std::panic::AssertUnwindSafe(&self.ctx);
-		match catch(move || {
+		let res = match catch(move || {
 			let r = ctx.verify(&p);
 			err_name(&r)
 		}) {
 			Ok(s) => s,
 			Err(_) => "panic",
+		};
+		// pipeline self-test (never set by ./check): pretend the Cuckatoo verifier lost its final
+		// `n == size` test, to see that such a regression surfaces as FAIL / #ORACLE-FAIL
+		if res == "tooshort" && self.v == Var::Cuckatoo && std::env::var("VERIF_POW_SELFTEST").is_ok() {
+			return "ok";
 		}
+		res
 	}
 }
 
@@ -547,6 +564,23 @@ fn seed_with_cycle(v: Var, eb: u8, ps: usize, rng: &mut Rng, tries: u32) -> Opti
 	None
 }
 
+/// Cuckatoo "same-node" near misses in a graph: closed walks that pair some edge ends with
+/// identical node values, that the xor filter lets through, and that are not real cycles
+fn cuckatoo_samenode(eps: &[(u64, u64)], ps: usize, budget: &mut u64, max: usize) -> Vec<Vec<u64>> {
+	let edge_mask = eps.len() as u64 - 1;
+	find_cycles_x(Var::Cuckatoo, eps, ps, budget, 4 * max + 8, true)
+		.into_iter()
+		.filter(|c| {
+			let e: Vec<(u64, u64)> = c.iter().map(|n| eps[*n as usize]).collect();
+			let init = (ps as u64 / 2) & 1;
+			let x0 = e.iter().fold(init, |a, p| a ^ p.0);
+			let x1 = e.iter().fold(init, |a, p| a ^ p.1);
+			x0 | x1 == 0 && !oracle(Var::Cuckatoo, ps, edge_mask, &e, c)
+		})
+		.take(max)
+		.collect()
+}
+
 fn exh(out: &mut Out, rng: &mut Rng, thorough: bool) {
 	let ps = 8usize;
 	set_chain_for(ps);
@@ -554,10 +588,28 @@ fn exh(out: &mut Out, rng: &mut Rng, thorough: bool) {
 	let mut ntuples = 0u64;
 	// edge_bits 4: every ascending 8-tuple of the 16 edges, whole verdict string to the driver
 	let nseeds = if thorough { 40 } else { 14 };
+	let mut samenode_graphs = 0u64;
 	for v in VARS.iter() {
 		for si in 0..nseeds {
 			// every other seed is chosen so that its 16-edge graph contains an 8-cycle
-			let seed = if si % 2 == 0 {
+			let seed = if *v == Var::Cuckatoo && si % 3 == 2 {
+				// a 16-edge graph containing a "same-node" near miss that passes the xor filter
+				let mut found = None;
+				for _ in 0..20000 {
+					let sd = rng.next();
+					let keys = real_keys(&header(sd), None);
+					let eps: Vec<(u64, u64)> = (0..16u64).map(|n| v.ep(&keys, 4, n)).collect();
+					let mut budget = 50_000u64;
+					if !cuckatoo_samenode(&eps, ps, &mut budget, 1).is_empty() {
+						found = Some(sd);
+						break;
+					}
+				}
+				if found.is_some() {
+					samenode_graphs += 1;
+				}
+				found.unwrap_or_else(|| rng.next())
+			} else if si % 2 == 0 {
 				seed_with_cycle(*v, 4, ps, rng, 20000).map(|x| x.0).unwrap_or_else(|| rng.next())
 			} else {
 				rng.next()
@@ -565,15 +617,17 @@ fn exh(out: &mut Out, rng: &mut Rng, thorough: bool) {
 			let r = Runner::new(*v, 4, ps, ps, seed, true);
 			let mut s = String::with_capacity(13000);
 			let mut acc = vec![];
+			let mut nbad = 0u64;
 			for_each_tuple(16, ps, &mut |t: &[u64]| {
 				let res = r.verify(t, &mut stats, out);
 				stats.add(*v, res);
 				let o = oracle(*v, ps, 15, &r.eps(t), t);
 				if (res == "ok") != o {
-					out.raw(&format!(
-						"#ORACLE-FAIL C05 {} edge_bits=4 seed={} keys=[{}] nonces={} verdict={} but simple-cycle oracle says {}",
-						v.name(), seed, keys_str(&r.keys), nat_list(t), res, if o { "accept" } else { "reject" }
-					));
+					nbad += 1;
+					// the first few offending tuples of this graph, then a count
+					if nbad <= 5 {
+						out.raw(&oracle_fail_line(*v, 4, ps, &r.keys, seed, t, res, o, ""));
+					}
 				}
 				if res == "ok" {
 					acc.push(t.to_vec());
@@ -581,6 +635,12 @@ fn exh(out: &mut Out, rng: &mut Rng, thorough: bool) {
 				s.push(err_char(res));
 				ntuples += 1;
 			});
+			if nbad > 5 {
+				out.raw(&format!(
+					"#STAT exh {} edge_bits=4 seed={}: {} tuples differ from the harness oracle (first 5 printed)",
+					v.name(), seed, nbad
+				));
+			}
 			out.line(
 				&format!("pow exh {} 4 {} {}", v.name(), ps, keys_str(&r.keys)),
 				&s,
@@ -601,6 +661,7 @@ fn exh(out: &mut Out, rng: &mut Rng, thorough: bool) {
 		}
 	}
 	out.raw(&format!("#STAT exh edge_bits=4 proofsize=8 seeds/variant={} tuples={}", nseeds, ntuples));
+	out.raw(&format!("#STAT exh cuckatoo 16-edge graphs chosen to contain a same-node near miss (closed walk pairing identical nodes, passes the xor filter): {}", samenode_graphs));
 	// edge_bits 5 and 6: the oracle is evaluated here on every tuple (eb 5, thorough: all
 	// 10 518 300 tuples of one seed per variant) or on random ascending tuples; accepted ones and a
 	// sample of the rejected go to the driver
@@ -617,15 +678,16 @@ fn exh(out: &mut Out, rng: &mut Rng, thorough: bool) {
 				let r = Runner::new(*v, *eb, ps, ps, seed, true);
 				let edge_mask = (1u64 << eb) - 1;
 				let mut sampled = 0u64;
+				let mut nbad56 = 0u64;
 				let mut check = |t: &[u64], stats: &mut Stats, out: &mut Out, force: bool| {
 					let res = r.verify(t, stats, out);
 					stats.add(*v, res);
 					let o = oracle(*v, ps, edge_mask, &r.eps(t), t);
 					if (res == "ok") != o {
-						out.raw(&format!(
-							"#ORACLE-FAIL C05 {} edge_bits={} seed={} keys=[{}] nonces={} verdict={} but simple-cycle oracle says {}",
-							v.name(), eb, seed, keys_str(&r.keys), nat_list(t), res, if o { "accept" } else { "reject" }
-						));
+						nbad56 += 1;
+						if nbad56 <= 5 {
+							out.raw(&oracle_fail_line(*v, *eb, ps, &r.keys, seed, t, res, o, ""));
+						}
 					}
 					let interesting = res != "nomatch";
 					if force || res == "ok" || (interesting && sampled < 3000) {
@@ -699,6 +761,14 @@ fn exh(out: &mut Out, rng: &mut Rng, thorough: bool) {
 /// all simple cycles of length `len` (as sorted edge lists); brute-force DFS over the graph of
 /// all 2^eb edges. `budget` bounds the DFS steps.
 fn find_cycles(v: Var, eps: &[(u64, u64)], len: usize, budget: &mut u64, max: usize) -> Vec<Vec<u64>> {
+	find_cycles_x(v, eps, len, budget, max, false)
+}
+
+/// `loose`: Cuckatoo only — also let the cycle continue between two *identical* node values
+/// (a real Cuckatoo cycle continues from `x` to `x ^ 1` only). Such "same-node" cycles with an
+/// even number of identical pairs pass the xor filter and are refused only by the
+/// `uvs[j] == uvs[i]` part of the dead-end test.
+fn find_cycles_x(v: Var, eps: &[(u64, u64)], len: usize, budget: &mut u64, max: usize, loose: bool) -> Vec<Vec<u64>> {
 	let mut adj: HashMap<u64, Vec<usize>> = HashMap::new(); // vertex -> slots
 	for (e, (a, b)) in eps.iter().enumerate() {
 		adj.entry(v.vkey(0, *a)).or_default().push(2 * e);
@@ -710,7 +780,7 @@ fn find_cycles(v: Var, eps: &[(u64, u64)], len: usize, budget: &mut u64, max: us
 	let cont = |a: usize, b: usize| -> bool {
 		a / 2 != b / 2
 			&& match v {
-				Var::Cuckatoo => node(a) != node(b),
+				Var::Cuckatoo => loose || node(a) != node(b),
 				Var::Cuckarood => (a / 2) % 2 != (b / 2) % 2,
 				Var::Cuckaroom => a % 2 == 1 && b % 2 == 0,
 				_ => true,
@@ -786,10 +856,7 @@ fn verify_line(r: &Runner, ctx_ps: usize, nonces: &[u64], what: &str, stats: &mu
 	if ctx_ps == r.ps {
 		let o = oracle(r.v, r.ps, edge_mask, &r.eps(nonces), nonces);
 		if (res == "ok") != o || (expect_reject && res == "ok") {
-			out.raw(&format!(
-				"#ORACLE-FAIL C05 {} {} edge_bits={} seed={} keys=[{}] nonces={} verdict={} oracle={}",
-				r.v.name(), what, r.eb, r.seed, keys_str(&r.keys), nat_list(nonces), res, if o { "accept" } else { "reject" }
-			));
+			out.raw(&oracle_fail_line(r.v, r.eb, r.ps, &r.keys, r.seed, nonces, res, o, what));
 		}
 	}
 	out.line(
@@ -906,6 +973,13 @@ fn solve(out: &mut Out, rng: &mut Rng, thorough: bool) {
 			for c in cycles.iter() {
 				found += 1;
 				near_misses(&r, c, rng, &mut stats, out);
+			}
+			if *v == Var::Cuckatoo {
+				let mut bs = 200_000u64;
+				for t in cuckatoo_samenode(&r.eps_all, ps, &mut bs, 3).iter() {
+					*shapes.entry("cuckatoo-samenode".to_string()).or_insert(0) += 1;
+					verify_line(&r, ps, t, "samenode", &mut stats, out, true);
+				}
 			}
 			// Cuckatoo: the repo's own solver on the same graph
 			if *v == Var::Cuckatoo && g % 8 == 0 {
